@@ -158,13 +158,17 @@ def work_raw_no_eid(chunk):
                     continue
                 r = rb.parse_message(data, strict=False)
                 prob = None
-                if not r.flags & 2:
-                    prob = "priv flag clear (msgFlags %02x)" % r.flags
-                elif r.encrypted is None:
-                    prob = "msgData is not encrypted"
+                # a discovery probe (no varbinds) may legitimately go out noAuthNoPriv (RFC 3414 s.4) - then in clear and flagged so;
+                # anything that names an OID must be encrypted, and the flag always says what the body is
+                if bool(r.flags & 2) != (r.encrypted is not None):
+                    prob = "msgFlags %02x but msgData is %s" % (r.flags, "encrypted" if r.encrypted is not None else "in clear")
+                elif op != "refresh" and not r.flags & 2:
+                    prob = "priv flag clear (msgFlags %02x) on a request that names an OID" % r.flags
+                elif op == "refresh" and r.encrypted is None and r.oids:
+                    prob = "plaintext probe carries varbinds"
                 elif rb.oid_content(SYS) in data and op != "refresh":
                     prob = "the OID is readable in the datagram"
-                elif len(r.priv_params) != 8:
+                elif r.encrypted is not None and len(r.priv_params) != 8:
                     prob = "msgPrivacyParameters is %d octets" % len(r.priv_params)
                 if prob:
                     res.violation("raw-no-engine-id/%s: %s" % (base.name, histcheck.classify(prob)), "%s sent before the engine id is known: %s" % (op, prob), {"raw_no_eid": True, "cfg": case["cfg"]})
